@@ -114,8 +114,17 @@ def leafPrim (c : Cfg) : BLeaf → Res Prim
   | .quoted b => .ok (.str (decode1252 b)) | .unquoted b => .ok (.str (decode1252 b))
   | .id n => idPrim c n
 
+/-- a `u16` request that meets a token id: the raw id, the resolver is not consulted (all three paths). -/
+def u16Leaf (t : Ty) (l : BLeaf) : Option Nat :=
+  match t, l with
+  | .u16, .id n => some n
+  | _, _ => none
+
 /-- a leaf for a type: the primitive it denotes, then what the type accepts. -/
 def valLeaf (c : Cfg) (t : Ty) (l : BLeaf) : Res String :=
+  match u16Leaf t l with
+  | some n => visitPrim .u16 (.u16 n)
+  | none =>
   match leafPrim c l with
   | .error e => .error e
   | .ok p =>
